@@ -140,7 +140,7 @@ func scenC02(r *Run) {
 		// the page carries no id of its own and embeds objects whose ids name the victim's host
 		anon := "https://" + E + "/c/anonpage"
 		forgedNote := Doc{"id": N1, "type": "Note", "name": "FORGED NAME", "content": "<p>FORGED WORDS</p>", "attributedTo": V}
-		serve(anon, Doc{"type": "OrderedCollectionPage", "orderedItems": []any{
+		serve(anon, Doc{"type": "OrderedCollectionPage", "partOf": vOutbox, "orderedItems": []any{
 			Doc{"id": actV, "type": "Create", "actor": V, "object": forgedNote},
 			forgedNote,
 		}})
@@ -208,7 +208,32 @@ func scenC02(r *Run) {
 			lie["summary"] = "<p>FORGED BIO</p>"
 		}
 		seq++
-		switch t.Draw(12) {
+		switch t.Draw(14) {
+		case 13:
+			// an attacker-owned collection whose anonymous page says it is part of the victim's
+			// collection: a claim like any other
+			pg := fmt.Sprintf("https://%s/c/part%d", E, seq)
+			serve(pg, Doc{"type": "OrderedCollectionPage", "partOf": vOutbox, "orderedItems": []any{lie}})
+			coll := fmt.Sprintf("https://%s/c/coll%d", E, seq)
+			serve(coll, Doc{"id": coll, "type": "OrderedCollection", "first": pg})
+			entry = append(entry, coll)
+			return coll, "attacker-collection-whose-anonymous-page-claims-to-be-part-of-the-victims"
+		case 12:
+			// the victim's id plus a fragment, served by the attacker under the very same path: a
+			// fragment does not change which host has to vouch for the object
+			pu, _ := url.Parse(vic.id)
+			l2 := Doc{}
+			for k, val := range lie {
+				l2[k] = val
+			}
+			l2["id"] = vic.id + []string{"#note", "#", "#main-key", "#x/y"}[t.Draw(4)]
+			u := "https://" + E + pu.RequestURI()
+			serve(u, l2)
+			entry = append(entry, u)
+			if t.Chance(1, 2) {
+				return l2, "embedded-with-victim-id-plus-fragment"
+			}
+			return u, "attacker-url-with-the-victims-path-serving-victim-id-plus-fragment"
 		case 11:
 			// an object of a host that cannot be asked: its name does not resolve (a server that is
 			// gone, a typo, a name made up for the occasion). Nobody can vouch for it, least of all
